@@ -611,6 +611,18 @@ def feed(ctx):
     ctx.ob("C17.feed", fd.short(), "object", ok_obj,
            f"data_object = `{show(ak.get('data_object'))}`, application_id = `{show(ak.get('application_id'))}`: the decoded DENM itself must be "
            "stored under the DENM application id with the location built from its event position", fd.loc)
+    # the record's validity counts from RECEPTION: its timestamp is the current time, nothing taken from the message
+    # (a timestamp copied from detectionTime / referenceTime makes an event that has been going on for longer than the
+    # validity expired on arrival - stored and purged in the same call)
+    ts = ak.get("timestamp")
+    ts_from_msg = ts is not None and any(isinstance(n_, ast.Name) and n_.id == dv for n_ in ast.walk(ts))
+    ts_now = ts is not None and isinstance(ts, ast.Call) and not ts_from_msg and \
+        (dotted(ts.func) or "").split(".")[-1] in ("initialize_with_utc_timestamp_seconds", "TimestampIts", "now") and \
+        all("time" in (dotted(getattr(a_, "func", a_)) or "time").lower() for a_ in ts.args)
+    ctx.ob("C17.feed", fd.short(), "stamped-at-reception", len(add) == 1 and ts_now,
+           f"record timestamp = `{show(ts)}` (the reception time)" if ts_now else
+           f"record timestamp = `{show(ts)}`: not the reception time - the record's validity is counted from a time inside the message, so a "
+           "DENM about an ongoing event is expired on arrival and never kept at its event position", fd.loc)
     puts = _calls(P, fd, lambda t: isinstance(t, FuncInfo) and t.name == "add_provider_data")
     ok_add, why = False, f"{len(puts)} call(s) of add_provider_data"
     if len(puts) == 1 and len(add) == 1:
